@@ -488,22 +488,33 @@ def rule_listify(ctx, rule='R14.l'):
              ('list', Seq([Const('A'), Const('B')], 'list'), lambda r: isinstance(r, Seq) and [x.v for x in r.items] == ['A', 'B']),
              ('tuple', Seq([Const('A'), Const('B')], 'tuple'), lambda r: isinstance(r, Seq) and [x.v for x in r.items] == ['A', 'B']),
              ('scalar', const_num(3), lambda r: isinstance(r, Seq) and len(r.items) == 1)]
-    bad = []
+    # every other iterable collection of keys is a list of keys too (the documented behaviour is "anything iterable that
+    # is not a string"): numpy arrays of labels, sets, dict views, generators
+    for kind in ('ndarray', 'set', 'frozenset', 'dict_keys', 'generator', 'range'):
+        cases.append((kind, Seq([Const('A'), Const('B')], kind),
+                      lambda r: isinstance(r, Seq) and sorted(getattr(x, 'v', None) for x in r.items) == ['A', 'B']))
+    bad, und = [], []
     for nm, arg, ok in cases:
         ip = Interp(ctx.prog)
         ip.lib_overrides['builtins.iter'] = _b_iter
         o = Obj(cls, {}, 'self')
         try:
             r = ip.call(ip.make_func(m, o), [arg], {})
-        except (Unsupported, Raised) as e:
-            bad.append('%s: %s' % (nm, e))
+        except Unsupported as e:
+            und.append('%s: %s' % (nm, e))
+            continue
+        except Raised as e:
+            bad.append('listify(%s) raises %s' % (nm, e.exc))
             continue
         if not ok(r):
-            bad.append('listify(%s) -> %r' % (nm, r))
+            bad.append('listify(<%s of two keys>) -> %s' % (nm, [getattr(x, 'v', x) for x in r.items] if isinstance(r, Seq) else r))
     if bad:
         ctx.violation(rule, construct, 'listify', '; '.join(bad), m.loc())
+    elif und:
+        ctx.undecided(rule, construct, '; '.join(und[:3]), m.loc())
     else:
-        ctx.holds(rule, construct, 'str -> [str]; list/tuple -> list of its items; scalar -> [scalar] (4 argument kinds interpreted)', m.loc())
+        ctx.holds(rule, construct, 'str -> [str]; list/tuple/ndarray/set/frozenset/dict view/generator/range -> list of its items; '
+                  'scalar -> [scalar] (%d argument kinds interpreted)' % len(cases), m.loc())
 
 
 def _b_iter(ip, args, kwargs, node):
@@ -575,6 +586,11 @@ def _run_export(prog, case):
     arrs = [Arr(N.sym('w'), 'cell_aa', ip), Arr(2 * N.sym('w'), 'cell_ab', ip),
             Arr(3 * N.sym('w') if case != 'unequal' else N.sym('v'), 'cell_bb', ip)]
     vals = list(arrs)
+    if case == 'zero-d':
+        # every entry is a single number (what np.loadtxt returns for a one-number file: a 0-d array)
+        for nm in ('z1', 'z2', 'z3'):
+            ip.declare(nm)
+        vals = [Num(N.sym('z1')), Num(N.sym('z2')), Num(N.sym('z3'))]
     if case == 'unset':
         vals[1] = NONE
     triples = Seq([Seq([Seq([const_num(0), const_num(0)]), Seq([la, la]), vals[0]]),
@@ -611,6 +627,12 @@ def rule_export(ctx, rule='R12.e'):
             except Raised as e:
                 if e.exc != 'ValueError':
                     bad.append('a table with %s raises %s, not ValueError' % ('arrays of different lengths' if case == 'unequal' else 'an unset entry', e.exc))
+        try:
+            _run_export(ctx.prog, 'zero-d')
+            bad.append('a table whose entries are single numbers (0-d arrays, e.g. one-row omega files) is exported as a length-1 '
+                       'MatrixArray, which numpy then broadcasts over the whole grid, instead of being refused')
+        except Raised:
+            pass            # len() of an unsized object / an explicit refusal: the PRISM object is not built
         try:
             ip, r = _run_export(ctx.prog, 'equal')
         except Raised as e:
